@@ -2,6 +2,8 @@ package props
 
 import (
 	"fmt"
+	"go/token"
+	"sort"
 
 	"golang.org/x/tools/go/ssa"
 
@@ -56,7 +58,39 @@ func c10(c *Ctx) {
 			len(ts) == 2 && ts[0] == 28 && ts[1] == 29, "type constants compared on the masked byte: "+u64s(ts))
 	}
 	minLenRule(c, []minLenRow{{fn: "codecs.(*H264Packet).parseBody", want: []int{1, 2}, why: "a one-byte NAL unit; STAP-A/FU-A need the 2 header octets and an FU payload may be empty (RFC 6184 5.8)"}})
-	r.Floor("H264 layout rows", n, 8)
+	// payloader dispatch on the unit type: only equalities, and only with AUD(9), filler(12), SPS(7), PPS(8)
+	// (RFC 6184 packetization: AUD and filler data may be dropped, nothing else)
+	if pf := p.Func("codecs.(*H264Payloader).Payload"); pf != nil {
+		for _, anon := range pf.AnonFuncs {
+			if len(anon.Params) != 1 {
+				continue
+			}
+			ma := bits.Run(p, anon)
+			var eq []uint64
+			var other []string
+			seen := map[uint64]bool{}
+			for _, ci := range ma.Cmps {
+				if !vecMatches(ci.Vec, "0 0 0 $p[0].4-0") {
+					continue
+				}
+				if ci.Op == token.EQL || ci.Op == token.NEQ {
+					if !seen[ci.Const] {
+						seen[ci.Const] = true
+						eq = append(eq, ci.Const)
+					}
+				} else {
+					other = append(other, fmt.Sprintf("%s %d", ci.Op, ci.Const))
+				}
+			}
+			sort.Slice(eq, func(i, j int) bool { return eq[i] < eq[j] })
+			sort.Strings(other)
+			n++
+			r.Add("BITS.reader", "codecs.(*H264Payloader).Payload", "unit-type dispatch of the payloader: equality tests with {7,8,9,12} only (dropped types: AUD 9, filler 12)",
+				p.Position(anon.Pos()), len(other) == 0 && len(eq) == 4 && eq[0] == 7 && eq[1] == 8 && eq[2] == 9 && eq[3] == 12,
+				"type tests: == "+u64s(eq)+" ; range tests: "+stringsJoin(other))
+		}
+	}
+	r.Floor("H264 layout rows", n, 9)
 	var entries []*ssa.Function
 	for _, nme := range []string{"codecs.(*H264Payloader).Payload", "codecs.(*H264Packet).Unmarshal", "codecs.(*H264Packet).IsPartitionHead"} {
 		if f := p.Func(nme); f != nil {
